@@ -55,7 +55,7 @@ class C14(Prop):
         pool = {
             "F": F, "dom": dom if dom is not None else rng.choice(self.DOMS),
             # system 2 is measured on its OWN wavelength grid (the interior samples of a uniform filter grid; on other filter domains it is an ordinary system)
-            "systems": [{"S": S1, "lb": None, "ub": [4.0, 5.0, 6.0, 4.5]}, {"S": S2, "lb": [0.25, 0.0, 0.5], "ub": None},
+            "systems": [{"S": S1, "lb": None, "ub": [4.0, 5.0, 6.0, 4.5]}, {"S": S2, "lb": [0.25, 0.0, 0.5], "ub": None, "Eps": [[dyad(rng, 1, 8, 8) for _ in range(3)] for _ in range(m)]},
                         {"S": [[dyad(rng, 0, 2, 8) + (1.0 if j == k + 1 else 0.0) for j in range(nd)] for k in range(3)], "lb": None, "ub": [3.0, 4.0, 5.0], "sub": True}],
             "Ks": [2.0, [0.5, 1.5, 0.75], [[1.0, 0.125, 0.0], [0.0, 1.0, -0.125], [0.0625, 0.0, 1.0]]],
             "bases": [0.5, [1.0, 0.0, 2.0]],
@@ -86,7 +86,7 @@ class C14(Prop):
         off = rng.randrange(len(pools))
         for i, h in enumerate(hists):
             pool = pools[3] if any(tuple(o) == ("system", 2) for o in h) else pools[(i + off) % len(pools)]
-            cases.append({"pool": pool, "hist": [list(o) for o in h], "seed": rng.randint(0, 10**6),
+            cases.append({"pool": pool, "hist": [list(o) for o in h], "seed": rng.randint(0, 10**6), "ext": bool(len(h) > 3 or (i + off) % 5 == 0),
                           "kind": "len%d/%s" % (len(h), "step" if not isinstance(pool["dom"], list) else ("uniform" if len(set(np.diff(pool["dom"]))) == 1 else "nonuniform"))})
         return cases
 
@@ -128,7 +128,11 @@ class C14(Prop):
                     last_sys["args"] = (S2_, d2)
                     rec.update(S=Seq.tolist(), lb=None if lb is None else lb.tolist(), ub=None if ub is None else ub.tolist())
                 else:
-                    call(est.register_system, S, lb=lb, ub=ub)
+                    Eps = None if sysd.get("Eps") is None else np.array(sysd["Eps"])
+                    if Eps is None:
+                        call(est.register_system, S, lb=lb, ub=ub)
+                    else:
+                        call(lambda S_, E_: est.register_system(S_, lb=lb, ub=ub, Epsilon=E_), S, Eps)
                     last_sys["args"] = (S, None)
                     rec.update(S=S.tolist(), lb=None if lb is None else lb.tolist(), ub=None if ub is None else ub.tolist())
             elif kind == "bounds":
@@ -173,7 +177,8 @@ class C14(Prop):
             def snapshot():
                 return (np.atleast_2d(np.array(est.K, dtype=float)).copy(), np.broadcast_to(est.baseline, (m,)).astype(float).copy(),
                         (est.A.copy(), est.lb.copy(), est.ub.copy()) if est.registered else None,
-                        (np.asarray(est.B, dtype=float).copy(), np.broadcast_to(est.W, np.shape(est.B)).astype(float).copy()) if hasattr(est, "B") else None)
+                        (np.asarray(est.B, dtype=float).copy(), np.broadcast_to(est.W, np.shape(est.B)).astype(float).copy()) if hasattr(est, "B") else None,
+                        np.asarray(est.Epsilon, dtype=float).copy() if (est.registered and isinstance(est.Epsilon, np.ndarray)) else None)
             snap = snapshot()
             def queries():
                 r = [est.relative_capture(sig), est.capture(sig)]
@@ -209,39 +214,72 @@ class C14(Prop):
             steps.append(rec)
         # twin: a fresh object registered from the current values must answer solver-backed queries identically
         try:
-            twin_bad = self.twin_compare(dreye, est, F, dom, last_sys["args"])
+            twin_bad = self.twin_compare(dreye, est, F, dom, last_sys["args"], case.get("ext", True))
             if twin_bad:
                 problems.append(twin_bad)
         except Exception as e:  # noqa
             problems.append("twin comparison raised %s: %s" % (type(e).__name__, str(e)[:120]))
         return {"steps": steps, "problems": problems}
 
-    def twin_compare(self, dreye, est, F, dom, sysargs=None):
+    def twin_compare(self, dreye, est, F, dom, sysargs=None, ext=True):
         if not est.registered:
             return None
         tw = dreye.ReceptorEstimator(F, domain=dom, K=np.array(est.K), baseline=np.array(est.baseline))
         if sysargs is not None and sysargs[1] is not None:
             tw.register_system(np.array(sysargs[0]), lb=np.array(est.lb), ub=np.array(est.ub), domain=np.array(sysargs[1]))
         else:
-            tw.register_system(np.array(est.sources), lb=np.array(est.lb), ub=np.array(est.ub))
+            tw.register_system(np.array(est.sources), lb=np.array(est.lb), ub=np.array(est.ub),
+                               Epsilon=(np.array(est.Epsilon) if isinstance(est.Epsilon, np.ndarray) else None))
         if hasattr(est, "B"):
             # registered targets / per-sample weights are registered values too
             tw.register_targets(np.array(est.B), W=(None if est.W is est.w else np.array(est.W)))
         Bq = np.array([[3.0, 2.5, 4.0], [40.0, 1.0, 1.0]])
         fin = bool(np.all(np.isfinite(est.ub)))
-        for name, f in [("in_hull", lambda e: e.in_hull(Bq)), ("fit(B)", lambda e: np.hstack(e.fit(Bq, **HI))),
-                        ("sample_in_gamut(seed)", lambda e: e.sample_in_gamut(5, seed=3) if fin else np.zeros(1)),
-                        ("compute_gamut(seed)", lambda e: np.atleast_1d(e.compute_gamut(seed=2)) if fin else np.zeros(1)),
-                        ("in_hull(normalized)", lambda e: e.in_hull(Bq, normalized=True) if fin else np.zeros(1))]:
+        ubf = np.where(np.isfinite(est.ub), est.ub, est.lb + 4.0)
+        Bin = np.asarray(est.system_relative_capture(np.vstack([est.lb + (ubf - est.lb) * 0.5, est.lb + (ubf - est.lb) * 0.25])), dtype=float)   # in gamut
+        under = est.A.shape[1] > est.A.shape[0]
+        Bq0 = Bq.copy(); Bin0 = Bin.copy()
+        none = lambda e: np.zeros(1)
+        # (name, query on the object with history, query on the fresh twin): the object may be asked something ELSE first —
+        # an earlier query with other options must not change the answer to a later one
+        def warm_then(first, then):
+            def f(e):
+                try:
+                    first(e)
+                except Exception:  # noqa
+                    pass
+                return then(e)
+            return f
+        fitd = lambda e: np.hstack(e.fit(Bq))
+        und6 = lambda e: np.hstack(e.fit_underdetermined(Bin, l2_eps=1e-6, **HI))
+        pairs = [("in_hull", lambda e: e.in_hull(Bq), None), ("fit(B)", lambda e: np.hstack(e.fit(Bq, **HI)), None),
+                 ("sample_in_gamut(seed)", (lambda e: e.sample_in_gamut(5, seed=3)) if fin else none, None),
+                 ("compute_gamut(seed)", (lambda e: np.atleast_1d(e.compute_gamut(seed=2))) if fin else none, None),
+                 ("in_hull(normalized)", (lambda e: e.in_hull(Bq, normalized=True)) if fin else none, None),
+                 ("gamut_dist_scaling", (lambda e: e.gamut_dist_scaling(Bq)) if fin else none, None),
+                 ("range_of_solutions", (lambda e: np.hstack(e.range_of_solutions(Bin))) if (fin and under) else none, None),
+                 ("fit(B) with default options after a fit with other solver options", warm_then(lambda e: e.fit(Bq, solver="SCS", max_iters=3, eps=1e-1), fitd), fitd),
+                 ("fit_underdetermined(l2_eps=1e-6) after l2_eps=1e-2", warm_then(lambda e: e.fit_underdetermined(Bin, l2_eps=1e-2, **HI), und6) if under else none, und6 if under else none),
+                 ("minimize_variance asked twice", warm_then(lambda e: e.minimize_variance(Bin, **HI), lambda e: np.hstack(e.minimize_variance(Bin, **HI))) if isinstance(est.Epsilon, np.ndarray) else none,
+                  (lambda e: np.hstack(e.minimize_variance(Bin, **HI))) if isinstance(est.Epsilon, np.ndarray) else none),
+                 ("fit(B, model='poisson') after an excitation fit", warm_then(lambda e: e.fit(Bin, model="excitation"), lambda e: np.hstack(e.fit(Bin, model="poisson", **HI))),
+                  lambda e: np.hstack(e.fit(Bin, model="poisson", **HI)))]
+        if not ext:
+            pairs = pairs[:7]      # the sequence-sensitive (warm-up) pairs are run on every random history and on a fifth of the exhaustive ones
+        for name, f, ftw in pairs:
+            ftw = ftw or f
             try:
                 a = np.asarray(f(est), dtype=float)
             except Exception as ea:  # noqa
                 try:
-                    f(tw)
+                    ftw(tw)
                 except Exception as eb:  # noqa
                     if type(ea) is type(eb):
                         continue
                 return "%s raises %s on the object with history but not on a freshly registered twin" % (name, type(ea).__name__)
+            if not (np.array_equal(Bq, Bq0) and np.array_equal(Bin, Bin0)):
+                return "caller array (targets) modified by %s" % name
+            f = ftw
             b = np.asarray(f(tw), dtype=float)
             if a.shape != b.shape or not np.array_equal(a, b, equal_nan=True):
                 return "%s differs between the object with history and a freshly registered twin (max |diff| %.3g)" % (name, float(np.max(np.abs(a - b))) if a.shape == b.shape else -1)
